@@ -114,7 +114,25 @@ func indexedByCounter() bool {
 	return ok && q.NextIndex == 41 && len(q.Items) == 2
 }
 
-var ffApplicable = indexedByCounter()
+// (probed in a goroutine of its own: a queue whose lock is left locked on some
+// path must not block the start of the worker; it then counts as "not indexed")
+var ffApplicable = func() bool {
+	ch := make(chan bool, 1)
+	go func() {
+		defer func() {
+			if recover() != nil {
+				ch <- false
+			}
+		}()
+		ch <- indexedByCounter()
+	}()
+	select {
+	case v := <-ch:
+		return v
+	case <-time.After(20 * time.Second):
+		return false
+	}
+}()
 
 func fastForward(t *rt.Tape, o *hx.Outcome) int {
 	if t.SW(3, 1) == 0 {
@@ -302,8 +320,26 @@ func runC18(c *hx.Ctx) *hx.Outcome {
 	return o
 }
 
-// runC18Sequential: long single-client runs far beyond the capacity.
+// runC18Sequential: long single-client runs far beyond the capacity.  The
+// calls are made from a scheduled goroutine, so that a lock which some path
+// leaves locked ends the run as a deadlock verdict instead of blocking the
+// worker on a real mutex.
 func runC18Sequential(c *hx.Ctx, o *hx.Outcome, n, ff int) *hx.Outcome {
+	s := c.NewSim()
+	var res *hx.Outcome
+	verdict := s.Run(func() { res = runC18SequentialBody(c, o, n, ff) })
+	if len(s.Panics) > 0 {
+		o.Fail("C18/panic", "%s", firstLine(s.Panics[0]))
+		return o
+	}
+	if res == nil {
+		o.Fail("C18/not-finished", "a single client adding and taking snapshots one after the other did not finish (verdict %s, %d steps): a lock never released?", verdict, s.Steps)
+		return o
+	}
+	return res
+}
+
+func runC18SequentialBody(c *hx.Ctx, o *hx.Outcome, n, ff int) *hx.Outcome {
 	t := c.T
 	total := 10 + t.S(3000)
 	if c.Thorough() && t.S(10) == 0 {
@@ -328,6 +364,7 @@ func runC18Sequential(c *hx.Ctx, o *hx.Outcome, n, ff int) *hx.Outcome {
 			relabel(q, warpTo)
 		}
 		q.Add(msgWithID(uint64(i)))
+		rt.Progress()
 		model = append(model, uint64(i))
 		if len(model) > n {
 			model = model[1:]
